@@ -243,8 +243,12 @@ pub fn check(case: &Case, w: usize) -> CheckResult {
                 json!({"before": {"result": before.result, "logs": before.logs}, "after": {"result": after.result, "logs": after.logs}}),
             );
         }
-        // the next run succeeds normally
-        let o = env.mr(&vargv);
+        // the next run succeeds normally; it is a different run (one command instead of two),
+        // so anything the killed run left in its slot would show
+        bb::install_simple(env, &cfg, &plan_for("after", false));
+        let bargv: Vec<&str> = base_args.iter().map(|s| s.as_str()).collect();
+        let o = env.mr(&bargv);
+        bb::install_simple(env, &cfg, &plan_for("victim", true));
         if !o.ok() {
             return viol_obs(
                 &format!("c13.next.run.fails.{}", sig_suffix),
@@ -262,6 +266,16 @@ pub fn check(case: &Case, w: usize) -> CheckResult {
                     shown.brief(),
                 )
             }
+        }
+        let logs = env.mr(&["log", "show", "--stdout", "--stderr"]);
+        let text = logs.stdout_str();
+        let foreign = text.lines().find(|l| l.contains('|') && !l.starts_with("after|") && !l.starts_with('['));
+        if !logs.ok() || foreign.is_some() {
+            return viol_obs(
+                &format!("c13.next.run.logs.{}", sig_suffix),
+                format!("crash at {}: after the next run `log show` fails or shows output that is not that run's", what),
+                json!({"log_show": logs.brief(), "foreign_line": foreign}),
+            );
         }
         Ok(())
     };
